@@ -453,6 +453,10 @@ class GateMonitor(WireTracker):
             return any(a.get("acct") for a in self.sc.cfg.get("apps", []))
         if variant and variant.startswith("v6p"):
             return bool(self.sc.cfg.get("apps"))
+        if variant == "onlyacct":
+            return any(a.get("acct") for a in self.sc.cfg.get("apps", []))
+        if variant == "onlyauth":
+            return any(a.get("auth") for a in self.sc.cfg.get("apps", []))
         return bool(variant) and variant.startswith("p") and bool(self.sc.cfg.get("apps"))
 
     def judge_cea(self, s, st, variant, f):
@@ -461,7 +465,7 @@ class GateMonitor(WireTracker):
         rcode = f.result_code
         if (variant.startswith("p") or variant.startswith("v6p") or variant == "vsa") and not self.sc.cfg.get("apps"):
             variant = "nocommon"
-        if variant == "vsa_acct" and not self.acceptable(variant):
+        if variant in ("vsa_acct", "onlyacct", "onlyauth") and not self.acceptable(variant):
             variant = "nocommon"
         if variant == "vsa_cross":
             variant = "crosskind"        # a node without applications shares nothing with a non-relay peer
